@@ -7,6 +7,7 @@ import (
 	"regexp"
 	"sort"
 	"strings"
+	"unicode"
 )
 
 // operation type numbers of the documented bug format
@@ -55,6 +56,7 @@ func strList(v any) []string {
 
 func (meta *Meta) refEffect(c Case, vars map[string]any) reference {
 	in, _ := vars["input"].(map[string]any)
+	in = cleanedInput(in) // what has to be recorded
 	shape, _ := c.Args["input"].(map[string]any)
 	// validity of everything except the prefix arguments comes from the catalogue; what a prefix
 	// denotes is decided by resolving it over the population, independently of git-bug
@@ -186,6 +188,59 @@ func (meta *Meta) refEffect(c Case, vars map[string]any) reference {
 		r.must = false
 	}
 	return r
+}
+
+// refClean is the documented clean-up of text arguments, written here independently of
+// util/text: CRLF becomes LF; characters for which unicode.IsControl holds are dropped (in
+// multi-line text \n and \t stay); the result is trimmed with strings.TrimSpace, which removes
+// Unicode white space (U+00A0, U+3000, U+2028 ... included) at the two ends only. Everything
+// else - no-break and ideographic spaces inside the text, joiners, soft hyphens, separators,
+// private-use characters, a BOM in the middle - is part of what the user asked to record.
+func refClean(s string, multiline bool) string {
+	s = strings.ReplaceAll(s, "\r\n", "\n")
+	var sb strings.Builder
+	for _, r := range s {
+		if multiline && (r == '\n' || r == '\t') {
+			sb.WriteRune(r)
+			continue
+		}
+		if unicode.IsControl(r) {
+			continue
+		}
+		sb.WriteRune(r)
+	}
+	return strings.TrimSpace(sb.String())
+}
+
+// cleanedInput is the input object with its text arguments as they have to be recorded.
+func cleanedInput(in map[string]any) map[string]any {
+	if in == nil {
+		return nil
+	}
+	out := make(map[string]any, len(in))
+	for k, v := range in {
+		out[k] = v
+	}
+	if t, ok := in["title"].(string); ok {
+		out["title"] = refClean(t, false)
+	}
+	if t, ok := in["message"].(string); ok {
+		out["message"] = refClean(t, true)
+	}
+	for _, k := range []string{"added", "Removed"} {
+		if l, ok := in[k].([]any); ok {
+			cl := make([]any, len(l))
+			for i, e := range l {
+				if str, ok := e.(string); ok {
+					cl[i] = refClean(str, false)
+				} else {
+					cl[i] = e
+				}
+			}
+			out[k] = cl
+		}
+	}
+	return out
 }
 
 var hexRun = regexp.MustCompile(`[0-9a-f]{7,}`)
@@ -452,6 +507,7 @@ func (s *server) judgeMutation(c Case, m fieldDef, vars map[string]any, gr gqlRe
 		add("c17.user.returned", "returned-bug-id:"+c.Mutation, "%s returned bug %s, expected %s", c.Mutation, rb.Id, target)
 	}
 	in, _ := vars["input"].(map[string]any)
+	in = cleanedInput(in) // the returned bug must show the text as it has to be recorded
 	reflects := func(ok bool, what string) {
 		if !ok {
 			b, _ := json.Marshal(rb)
